@@ -1,2 +1,247 @@
+//! C02 — BBS signature binding: nothing but what was signed verifies.
+
+use crate::api::*;
 use crate::common::*;
-pub fn scenarios(_ctx: &Ctx) -> Vec<Scenario> { vec![] }
+use bls12_381_plus::G2Projective;
+use serde_json::json;
+
+struct Honest {
+    sk: BBSplusSecretKey,
+    pk: BBSplusPublicKey,
+    hdr: Hdr,
+    msgs: Vec<Vec<u8>>,
+    sig: [u8; 80],
+}
+
+fn reject<X: Sx>(
+    ctx: &Ctx,
+    h: &Honest,
+    kind: &str,
+    pos: String,
+    pk: &BBSplusPublicKey,
+    sig: &[u8; 80],
+    msgs: &[Vec<u8>],
+    hdr: Option<&[u8]>,
+) {
+    let case = format!("{}/L{}/hdr={}/{}/{}", name::<X>(), h.msgs.len(), h.hdr.class(), kind, pos);
+    ctx.distinct(&case);
+    let d = ctx.call("from_bytes", &case, None, || Sig::<X>::from_bytes(sig));
+    let Some(s) = d.value else { return };
+    let v = ctx.call("verify", &case, None, || s.verify(pk, Some(msgs), hdr));
+    if v.outcome.is_ok() {
+        ctx.violation(
+            &format!("C02:accepted/{}", kind),
+            json!({"case":case,"sk":hx(&h.sk.to_bytes()),"pk_used":hx(&pk.to_bytes()),"header_signed":hx(h.hdr.octets()),
+                   "header_used":hdr.map(hx),"messages_signed":msgs_json(&h.msgs),"messages_used":msgs_json(msgs),
+                   "signature_signed":hx(&h.sig),"signature_used":hx(sig)}),
+        );
+    }
+    if v.outcome.is_panic() {
+        ctx.count("panics_seen(counted as not accepted; C08 judges them)", 1);
+    }
+}
+
+fn one<X: Sx, Y: Sx>(ctx: &Ctx, idx: u64, l: usize, hdr_class: usize, msg_class: usize, all_flips: bool) {
+    let mut r = ctx.rng("c02", idx);
+    let (sk, pk) = if idx % 3 == 0 {
+        key_from_scalar(crate::refimpl::os2ip_mod_r(&rand_bytes(&mut r, 48)))
+    } else {
+        keypair::<X>(&mut r)
+    };
+    let hdr = match hdr_class % 4 {
+        0 => Hdr::Absent,
+        1 => Hdr::Empty,
+        2 => Hdr::Bytes(rand_bytes(&mut r, 1)),
+        _ => Hdr::Bytes(rand_bytes(&mut r, 24)),
+    };
+    let msgs = gen_messages(&mut r, l, msg_class);
+    let s = ctx.call("sign", "honest", None, || Sig::<X>::sign(Some(&msgs), &sk, &pk, hdr.as_opt()));
+    let Some(sig) = s.value else {
+        ctx.inconclusive("C02: honest sign failed (C01's business)");
+        return;
+    };
+    let h = Honest { sk, pk, hdr, msgs, sig: sig.to_bytes() };
+    let v = ctx.call("verify", "honest", None, || sig.verify(&h.pk, Some(&h.msgs), h.hdr.as_opt()));
+    if !v.outcome.is_ok() {
+        ctx.inconclusive("C02: honest signature did not verify (C01's business)");
+        return;
+    }
+    let ho = h.hdr.as_opt();
+    let try_msgs = |kind: &str, pos: String, m: Vec<Vec<u8>>| {
+        if m != h.msgs {
+            reject::<X>(ctx, &h, kind, pos, &h.pk, &h.sig, &m, ho);
+        } else {
+            ctx.count("trivial_edits_skipped", 1);
+        }
+    };
+    // ---- message edits
+    let positions: Vec<usize> = if l <= 40 { (0..l).collect() } else { (0..3).map(|_| rand_range(&mut r, l)).chain([0, l - 1]).collect() };
+    for &i in &positions {
+        let mut m = h.msgs.clone();
+        if !m[i].is_empty() {
+            let b = rand_range(&mut r, m[i].len() * 8);
+            m[i][b / 8] ^= 1 << (b % 8);
+            try_msgs("msg-bitflip", format!("{i}"), m);
+        }
+        let mut m = h.msgs.clone();
+        m[i] = Vec::new();
+        try_msgs("msg-emptied", format!("{i}"), m);
+        let mut m = h.msgs.clone();
+        m[i].push(0);
+        try_msgs("msg-extended", format!("{i}"), m);
+        let mut m = h.msgs.clone();
+        m.remove(i);
+        try_msgs("msg-deleted", format!("{i}"), m);
+        let mut m = h.msgs.clone();
+        m.insert(i, rand_bytes(&mut r, 9));
+        try_msgs("msg-inserted", format!("{i}"), m);
+        let mut m = h.msgs.clone();
+        m.insert(i, Vec::new());
+        try_msgs("msg-inserted-empty", format!("{i}"), m);
+        let mut m = h.msgs.clone();
+        m.insert(i, h.msgs[i].clone());
+        try_msgs("msg-duplicated", format!("{i}"), m);
+    }
+    // swaps of distinct messages
+    let pairs: Vec<(usize, usize)> = if l <= 8 {
+        (0..l).flat_map(|i| (i + 1..l).map(move |j| (i, j))).collect()
+    } else {
+        (0..16).map(|_| { let i = rand_range(&mut r, l); let j = rand_range(&mut r, l); (i.min(j), i.max(j)) }).filter(|(i, j)| i != j).collect()
+    };
+    for (i, j) in pairs {
+        let mut m = h.msgs.clone();
+        m.swap(i, j);
+        try_msgs("msg-swapped", format!("{i}-{j}"), m);
+    }
+    // rotation
+    if l >= 2 {
+        let mut m = h.msgs.clone();
+        m.rotate_left(1);
+        try_msgs("msg-rotated", "1".into(), m);
+    }
+    // prefixes and extensions
+    let prefixes: Vec<usize> = if l <= 16 { (0..l).collect() } else { vec![0, 1, l / 2, l - 1] };
+    for k in prefixes {
+        try_msgs("msg-prefix", format!("{k}"), h.msgs[..k].to_vec());
+    }
+    for k in 1..=3 {
+        let mut m = h.msgs.clone();
+        for _ in 0..k {
+            m.push(rand_bytes(&mut r, 5));
+        }
+        try_msgs("msg-appended", format!("{k}"), m);
+    }
+    let mut m = h.msgs.clone();
+    m.push(Vec::new());
+    try_msgs("msg-appended-empty", "1".into(), m);
+    // ---- header edits (as octet strings; None == empty)
+    let mut hdrs: Vec<(String, Option<Vec<u8>>)> = vec![];
+    let ho_bytes = h.hdr.octets().to_vec();
+    if !ho_bytes.is_empty() {
+        let mut x = ho_bytes.clone();
+        let b = rand_range(&mut r, x.len() * 8);
+        x[b / 8] ^= 1 << (b % 8);
+        hdrs.push(("hdr-bitflip".into(), Some(x)));
+        hdrs.push(("hdr-truncated".into(), Some(ho_bytes[..ho_bytes.len() - 1].to_vec())));
+        hdrs.push(("hdr-removed".into(), None));
+        hdrs.push(("hdr-emptied".into(), Some(vec![])));
+    } else {
+        hdrs.push(("hdr-added".into(), Some(rand_bytes(&mut r, 8))));
+    }
+    let mut x = ho_bytes.clone();
+    x.push(0);
+    hdrs.push(("hdr-extended-zero".into(), Some(x)));
+    let mut x = vec![0u8];
+    x.extend_from_slice(&ho_bytes);
+    hdrs.push(("hdr-prefixed".into(), Some(x)));
+    for (kind, hv) in hdrs {
+        if hv.as_deref().unwrap_or(&[]) != &ho_bytes[..] {
+            reject::<X>(ctx, &h, &kind, "-".into(), &h.pk, &h.sig, &h.msgs, hv.as_deref());
+        }
+    }
+    // ---- other public keys
+    let (_, pk2) = keypair::<X>(&mut r);
+    if pk2 != h.pk {
+        reject::<X>(ctx, &h, "pk-other", "-".into(), &pk2, &h.sig, &h.msgs, ho);
+    }
+    reject::<X>(ctx, &h, "pk-negated", "-".into(), &BBSplusPublicKey(-h.pk.0), &h.sig, &h.msgs, ho);
+    reject::<X>(ctx, &h, "pk-identity", "-".into(), &BBSplusPublicKey(G2Projective::IDENTITY), &h.sig, &h.msgs, ho);
+    reject::<X>(ctx, &h, "pk-generator", "-".into(), &BBSplusPublicKey(G2Projective::GENERATOR), &h.sig, &h.msgs, ho);
+    reject::<X>(ctx, &h, "pk-doubled", "-".into(), &BBSplusPublicKey(h.pk.0 + h.pk.0), &h.sig, &h.msgs, ho);
+    // ---- signature bit flips (all 640 for selected scenarios)
+    let flips: Vec<usize> = if all_flips { (0..640).collect() } else { (0..24).map(|_| rand_range(&mut r, 640)).collect() };
+    for b in flips {
+        let mut s2 = h.sig;
+        s2[b / 8] ^= 1 << (b % 8);
+        reject::<X>(ctx, &h, "sig-bitflip", format!("{b}"), &h.pk, &s2, &h.msgs, ho);
+    }
+    // ---- cross-suite: same key, same inputs, other suite's verifier
+    {
+        let case = format!("{}->{}/L{}/cross-suite", name::<X>(), name::<Y>(), l);
+        ctx.distinct(&case);
+        if let Some(s) = ctx.call("from_bytes", &case, None, || Sig::<Y>::from_bytes(&h.sig)).value {
+            let v = ctx.call("verify", &case, None, || s.verify(&h.pk, Some(&h.msgs), ho));
+            if v.outcome.is_ok() {
+                ctx.violation("C02:accepted/cross-suite", json!({"case":case,"sk":hx(&h.sk.to_bytes()),"messages":msgs_json(&h.msgs),"sig":hx(&h.sig)}));
+            }
+        }
+    }
+    // ---- cross-interface: blind_sign without commitment <-> verify ; sign <-> verify_blind_sign
+    {
+        let case = format!("{}/L{}/blind->plain", name::<X>(), l);
+        ctx.distinct(&case);
+        let b = ctx.call("blind_sign", &case, None, || BSig::<X>::blind_sign(&h.sk, &h.pk, None, ho, Some(&h.msgs)));
+        if let Some(bs) = b.value {
+            let bb = bs.to_bytes();
+            if let Some(s) = ctx.call("from_bytes", &case, None, || Sig::<X>::from_bytes(&bb)).value {
+                let v = ctx.call("verify", &case, None, || s.verify(&h.pk, Some(&h.msgs), ho));
+                if v.outcome.is_ok() {
+                    ctx.violation("C02:accepted/blind-signature-through-plain-verify", json!({"case":case,"sig":hx(&bb)}));
+                }
+            }
+        } else {
+            ctx.count("blind_sign_failed_in_cross_interface", 1);
+        }
+        let case = format!("{}/L{}/plain->blind", name::<X>(), l);
+        ctx.distinct(&case);
+        if let Some(bs) = ctx.call("from_bytes", &case, None, || BSig::<X>::from_bytes(&h.sig)).value {
+            for (k, bf) in [None, Some(BlindFactor::from_bytes(&[0u8; 32]).unwrap())].iter().enumerate() {
+                let v = ctx.call("verify_blind_sign", &case, None, || bs.verify_blind_sign(&h.pk, ho, Some(&h.msgs), None, bf.as_ref()));
+                if v.outcome.is_ok() {
+                    ctx.violation("C02:accepted/plain-signature-through-blind-verify", json!({"case":case,"variant":k,"sig":hx(&h.sig)}));
+                }
+            }
+            // most favourable split: last message presented as a committed message
+            if l >= 1 {
+                let v = ctx.call("verify_blind_sign", &case, None, || bs.verify_blind_sign(&h.pk, ho, Some(&h.msgs[..l - 1]), Some(&h.msgs[l - 1..]), None));
+                if v.outcome.is_ok() {
+                    ctx.violation("C02:accepted/plain-signature-through-blind-verify", json!({"case":case,"variant":"split","sig":hx(&h.sig)}));
+                }
+            }
+        }
+    }
+    ctx.sample(json!({"honest":{"suite":name::<X>(),"L":l,"header":hx(h.hdr.octets()),"sig":hx(&h.sig)},"edits":"msg bitflip/empty/extend/delete/insert/dup/swap/rotate/prefix/append, header edits, 5 foreign keys, signature bit flips, cross-suite, cross-interface","all_640_flips":all_flips}));
+}
+
+pub fn scenarios(ctx: &Ctx) -> Vec<Scenario> {
+    let mut v = Vec::new();
+    let mut idx = 0u64;
+    let ls: Vec<usize> = if ctx.quick() {
+        vec![0, 1, 2, 3, 4, 5, 8, 13, 40, 255, 256, 257]
+    } else {
+        (0..=40).chain([63, 64, 65, 127, 128, 129, 255, 256, 257, 512, 1000]).collect()
+    };
+    let reps = ctx.t(2, 6);
+    for &l in ls.iter().rev() {
+        for rep in 0..reps {
+            let i = idx;
+            idx += 1;
+            // all 640 flips: first repetition of a few sizes in quick, every scenario with L <= 40 in thorough
+            let all = if ctx.quick() { rep == 0 && (l == 0 || l == 3) } else { l <= 40 && rep < 2 };
+            let (h, m) = (rep + l, rep * 2 + l);
+            v.push(scenario(format!("sha/L{l}/r{rep}"), move |c| one::<Sha, Shake>(c, i, l, h, m, all)));
+            v.push(scenario(format!("shake/L{l}/r{rep}"), move |c| one::<Shake, Sha>(c, i, l, h, m, all)));
+        }
+    }
+    v
+}
